@@ -151,3 +151,95 @@ hx_vdelete_at(int32 vkey, int32 pos)
         return -5;
     return Vdeletetagref(vkey, tag, ref);
 }
+
+/* ---- annotation helpers (C11) ---- */
+/* list annotations of `type` for an object (or, for file types, all of that type): each entry 3 int32:
+ * ann_tag, ann_ref, length.  Returns ANnumann's count (entries stored up to max), or a negative step code. */
+int32
+hx_an_list(int32 an_id, int32 type, int32 tag, int32 ref, int32 *o, int32 max)
+{
+    int32 n = ANnumann(an_id, (ann_type)type, (uint16)tag, (uint16)ref);
+    if (n == FAIL)
+        return -1;
+    if (n == 0)
+        return 0;
+    int32 *ids = (int32 *)malloc((size_t)n * sizeof(int32)); /* exact size: overruns are visible */
+    int32  m   = ANannlist(an_id, (ann_type)type, (uint16)tag, (uint16)ref, ids);
+    if (m != n) {
+        free(ids);
+        return -20 - (m == FAIL ? 0 : 1);
+    }
+    for (int32 i = 0; i < n && i < max; i++) {
+        uint16 at = 0, ar = 0;
+        if (ANid2tagref(ids[i], &at, &ar) == FAIL) {
+            free(ids);
+            return -30;
+        }
+        o[3 * i]     = at;
+        o[3 * i + 1] = ar;
+        o[3 * i + 2] = ANannlen(ids[i]);
+        ANendaccess(ids[i]);
+    }
+    free(ids);
+    return n;
+}
+
+/* enumerate all annotations of a type through ANselect: entries of 5 int32:
+ * ann_tag, ann_ref, length, and the tag/ref reported by ANget_tagref for the same index. */
+int32
+hx_an_all(int32 an_id, int32 type, int32 *o, int32 max)
+{
+    int32 c[4];
+    if (ANfileinfo(an_id, &c[0], &c[1], &c[2], &c[3]) == FAIL)
+        return -1;
+    int32 n = type == AN_FILE_LABEL ? c[0] : type == AN_FILE_DESC ? c[1] : type == AN_DATA_LABEL ? c[2] : c[3];
+    for (int32 i = 0; i < n && i < max; i++) {
+        int32  id = ANselect(an_id, i, (ann_type)type);
+        uint16 at = 0, ar = 0, gt = 0, gr = 0;
+        if (id == FAIL)
+            return -10;
+        if (ANid2tagref(id, &at, &ar) == FAIL)
+            return -11;
+        if (ANget_tagref(an_id, i, (ann_type)type, &gt, &gr) == FAIL)
+            return -12;
+        o[5 * i]     = at;
+        o[5 * i + 1] = ar;
+        o[5 * i + 2] = ANannlen(id);
+        o[5 * i + 3] = gt;
+        o[5 * i + 4] = gr;
+        ANendaccess(id);
+    }
+    return n;
+}
+
+/* read one annotation identified by its own tag/ref into an exact-size buffer */
+int32
+hx_an_read(int32 an_id, int32 ann_tag, int32 ann_ref, uint8 *out, int32 maxlen)
+{
+    int32 id = ANtagref2id(an_id, (uint16)ann_tag, (uint16)ann_ref);
+    if (id == FAIL)
+        return -10;
+    int32 len = ANannlen(id);
+    if (len == FAIL) {
+        ANendaccess(id);
+        return -11;
+    }
+    if (ANreadann(id, (char *)out, maxlen) == FAIL) {
+        ANendaccess(id);
+        return -12;
+    }
+    ANendaccess(id);
+    return len;
+}
+
+/* rewrite an existing annotation identified by its own tag/ref */
+int32
+hx_an_rewrite(int32 an_id, int32 ann_tag, int32 ann_ref, const char *text, int32 len)
+{
+    int32 id = ANtagref2id(an_id, (uint16)ann_tag, (uint16)ann_ref);
+    if (id == FAIL)
+        return -10;
+    int32 r = ANwriteann(id, text, len);
+    ANendaccess(id);
+    return r;
+}
